@@ -68,7 +68,7 @@ def serve_cases(prop, tier, seed):
         g.fam_range_ignored(cb)
         g.fam_wide(cb, n=300 * k)
     elif prop == "C04":
-        g.fam_cond(cb, n=8000 * k, with_range=True)
+        g.fam_cond(cb, n=8000 * k, with_range=True, future=True)
     elif prop == "C05":
         g.fam_ifrange(cb, reps=1 if not T else 3)
         g.fam_range_multi(cb, n=300 * k, with_ifr=True)
@@ -89,6 +89,7 @@ def serve_cases(prop, tier, seed):
         g.fam_range_big(cb, n_pairs=1000 * k, methods=("GET", "HEAD", "POST"))
         g.fam_range_ignored(cb)
     elif prop == "C14":
+        g.fam_clock(cb, pairs=2 if not T else 6)
         g.fam_echo(cb)
         g.fam_meta(cb)
         g.fam_cond(cb, n=1500 * k, future=True, with_range=True)
@@ -160,7 +161,7 @@ for _p in ALL_SERVE:
 # ------------------------------------------------------------------ runner
 
 def case_key(c):
-    d = {k: c.get(k) for k in ("method", "abs", "scripts", "dscript", "echo", "pair", "ops", "cfg", "prog", "sched", "conv", "len")
+    d = {k: c.get(k) for k in ("method", "abs", "scripts", "dscript", "echo", "pair", "ops", "cfg", "prog", "sched", "conv", "len", "seg", "pre_sleep")
          if k in c}
     e = c.get("ent")
     if e:
@@ -186,12 +187,15 @@ def case_signature(prop, c):
 
 
 def run_mc(prop, tier, name, spec, d):
-    module, consts, invs, must_cover = spec
+    module, consts, invs, must_cover = spec[:4]
+    opts = spec[4] if len(spec) > 4 else {}
     consts = dict(consts)
     if module != "NegMC":
         consts["Enforce"] = vlib.tla_set([prop])
-    cfg = "SPECIFICATION Spec\nCONSTANTS\n" + "\n".join("  %s = %s" % kv for kv in consts.items()) + \
-          "\nINVARIANTS " + " ".join(invs) + "\nCHECK_DEADLOCK FALSE\n"
+    cfg = "SPECIFICATION %s\nCONSTANTS\n" % opts.get("spec", "Spec") + "\n".join("  %s = %s" % kv for kv in consts.items()) + \
+          "\nINVARIANTS " + " ".join(invs) + \
+          ("\nPROPERTY " + " ".join(opts["properties"]) if opts.get("properties") else "") + \
+          "\nCHECK_DEADLOCK %s\n" % ("TRUE" if opts.get("deadlock") else "FALSE")
     t = time.time()
     rc, out = vlib.run_tlc(d, module, cfg, workers=max(4, vlib.NCPU // 2), timeout=3000 if tier == "thorough" else 600,
                            xmx="12g", extra_args=["-coverage", "1"])
@@ -213,7 +217,7 @@ def run_mc(prop, tier, name, spec, d):
 
 def run_witnesses(prop, name, spec, witnesses, d):
     """Each witness invariant must be VIOLATED (the situation it denies is reachable)."""
-    module, consts, invs, must_cover = spec
+    module, consts, invs, must_cover = spec[:4]
     consts = dict(consts)
     if module != "NegMC":
         consts["Enforce"] = vlib.tla_set([prop])
@@ -278,6 +282,7 @@ def run_check(prop, tier, seed):
 
     mc_specs = plan["mc"](tier)
     mc_results, trace_results = [], []
+    unbounded = []
 
     def do_mc():
         out = []
@@ -292,6 +297,14 @@ def run_check(prop, tier, seed):
             out.append(st)
             vlib.log("  exhaustive %-8s %8d distinct states, %8d generated, %5.1fs %s" %
                      (name, st["distinct"], st["generated"], st["wall_s"], st.get("witnesses", "")))
+        for module, inv in plan.get("apalache", []):
+            ok, secs, tail = vlib.run_apalache(os.path.join(mcd, "apalache_" + module), module, inv)
+            if not ok:
+                raise vlib.ToolError("Apalache did not prove %s!%s (a failure here is a defect of the model):\n%s"
+                                     % (module, inv, tail))
+            unbounded.append({"tool": "apalache-mc 0.58", "module": module, "invariant": inv, "outcome": "NoError",
+                              "wall_s": round(secs, 1), "scope": "all integers 0..2^64-1 (SMT, unbounded)"})
+            vlib.log("  unbounded  %s!%s proved by Apalache for all u64 values, %.1fs" % (module, inv, secs))
         return out
 
     def do_traces():
@@ -385,6 +398,7 @@ def run_check(prop, tier, seed):
         "violating_cases": len(new_viol),
         "known_findings_hit": sorted(known_hit),
         "enforce": [prop],
+        "unbounded_checks": unbounded,
     }
     if any(r["engine"] == "stream" for r in trace_results):
         cov["unhooked_sync_sites"] = unhooked_sync_sites()
@@ -437,7 +451,17 @@ def stream_mc_spec(prop, tier, cdrop):
          "AllowCDrop": "TRUE" if cdrop else "FALSE", "AllowAbort": "FALSE" if prop == "C08" and not T else "TRUE",
          "AllowWait": "TRUE"}
     return ("StreamMC", c, ["PropInv", "NoLostWakeup", "Consistent"], ["StreamMC.P_Step", "StreamMC.C_Poll",
-                                                                      "StreamMC.C_Probe"] + (["StreamMC.C_Drop"] if cdrop else []))
+                                                                      "StreamMC.C_Probe"] + (["StreamMC.C_Drop"] if cdrop else []),
+            {"deadlock": True})   # a parked consumer nobody will wake is a deadlock of the model
+
+
+def stream_live_spec(prop, tier):
+    """Liveness under weak fairness: once the producer is gone the consumer sees the terminal event."""
+    T = tier == "thorough"
+    c = {"Caps": "{1, 2}", "WSizes": "{0, 1, 3}", "MaxOps": 4 if T else 3, "MaxSpur": 2 if T else 1, "MaxProbes": 0,
+         "MaxExtra": 1, "AllowCDrop": "FALSE", "AllowAbort": "TRUE", "AllowWait": "TRUE"}
+    return ("StreamMC", c, ["PropInv", "NoLostWakeup"], ["StreamMC.P_Step", "StreamMC.C_Poll"],
+            {"spec": "FairSpec", "properties": ["EventuallyTerminal"], "deadlock": True})
 
 
 STREAM_WITNESS = {"nodrop": ["W_Parked", "W_CleanEnd", "W_Spurious"], "cdrop": ["W_WriteFails", "W_ErrEnd"]}
@@ -517,6 +541,8 @@ def stream_mc(prop):
         if prop in ("C09", "C17"):
             return []
         out = [("nodrop", stream_mc_spec(prop, tier, False))]
+        if prop == "C10":
+            out.append(("live", stream_live_spec(prop, tier)))
         if prop in ("C11", "C12", "C20"):
             out.append(("cdrop", stream_mc_spec(prop, tier, True)))
         return out
@@ -526,6 +552,8 @@ def stream_mc(prop):
 for _p in ["C08", "C09", "C10", "C11"]:
     PLANS[_p] = {"engines": [stream_plan(_p)], "mc": stream_mc(_p), "witness": STREAM_WITNESS}
 # C17 adds the negotiation model; C12 / C20 / C15 combine the serve and the stream engine
+PLANS["C03"]["apalache"] = [("RangesInt", "Inv")]
+PLANS["C02"]["apalache"] = [("RangesInt", "Inv")]
 PLANS["C17"] = {"engines": [stream_plan("C17")], "mc": lambda tier: [("neg", neg_mc(tier))], "witness": {"neg": ["W_True", "W_Both"]}}
 for _p in ["C12", "C20"]:
     PLANS[_p]["engines"].append(stream_plan(_p))
@@ -553,7 +581,7 @@ import filegen  # noqa: E402
 
 def readfile_mc(tier):
     c = {"MaxSize": 9 if tier == "quick" else 12, "ReadSize": 4, "MaxTrunc": 2 if tier == "quick" else 3}
-    return ("ReadFileMC", c, ["PropInv", "Bounded"], ["ReadFileMC.Trunc", "ReadFileMC.Poll"])
+    return ("ReadFileMC", c, ["PropInv", "Bounded"], ["ReadFileMC.Trunc", "ReadFileMC.Poll"], {"deadlock": True})
 
 
 PLANS["C18"] = {"engines": [{"engine": "file", "trace_module": "FileTrace",
@@ -576,3 +604,10 @@ PLANS["C19"] = {"engines": [{"engine": "dir", "trace_module": "DirTrace",
                              "nontrivial": lambda c: True}],
                 "mc": lambda tier: [("fsdir", fsdir_mc(tier))],
                 "witness": {"fsdir": ["W_Dots", "W_Gz", "W_Escape"]}}
+
+
+# C14 also over real files (every file served through ChunkedReadFile has a sub-second mtime)
+PLANS["C14"]["engines"].append({"engine": "file", "trace_module": "FileTrace",
+                                "cases": lambda tier, seed: filegen.file_echo_cases(tier, seed),
+                                "constants": {"Strict": "TRUE", "ReadSizeReal": "65536"},
+                                "nontrivial": lambda c: len(c.get("echo", [])) > 0})
